@@ -111,11 +111,15 @@ class RLScheduler(BaseScheduler):
     def _train(self) -> None:
         """Run the training loop."""
         state = self._env.reset()
-        while not self._stopped:
+        while True:
             # Get the action chosen by the agent
             action = self._agent.policy(state)
             # Interact with the environment
-            next_state, reward, _, _, _ = self._env.step(action)
+            next_state, reward, _, truncated, _ = self._env.step(action)
+            if truncated:
+                # end-of-session marker: this action was never executed, there is nothing to learn from it.
+                # Leaving the loop only here (not on the session flag) makes the hand-shake independent of thread timing.
+                break
             # Learn from interaction
             self._agent.learn(state, action, reward, next_state)
             state = next_state
@@ -165,3 +169,6 @@ class RLScheduler(BaseScheduler):
         self._stopped = True
         self._out_queue.put(None)
         cast(threading.Thread, self._agent_thread).join()
+        # drop the action the agent proposed for a batch that was never run, so that it cannot leak into the next session
+        while not self._in_queue.empty():
+            self._in_queue.get_nowait()
